@@ -60,7 +60,9 @@ WarnOnlyIfEa == cur.st = "WARN" => arg.ea
 CursorOK == phase # "build" => Mono /\ InIv /\ ValOK /\ NoFuel /\ NoSkip /\ WarnOnlyIfEa
 \* action property: with early_abort, a call that follows a modification of the border under the cursor returns WARN
 EaAct == [][(phase = "iter" /\ arg.ea /\ dirty /\ cur' # cur) => cur'.st = "WARN"]_vars
-View == <<node, root, abs, phase, arg, cur, produced, seenv, touched, nw, dirty>>
+\* build phase: the version counters are irrelevant (they only grow; the cursor compares versions for equality), so they are left out of the view
+View == IF phase = "build" THEN <<Force([n \in DOMAIN node |-> [node[n] EXCEPT !.ver.vi = 0, !.ver.vs = 0]]), root, abs, phase, <<>>, <<>>, <<>>, <<>>, {}, 0, FALSE>>
+        ELSE <<node, root, abs, phase, arg, cur, produced, seenv, touched, nw, dirty>>
 \* ---- universes / argument sets
 K5 == { <<>>, <<1>>, <<1,1,1,1,1,1,1,1>>, <<1,1,1,1,1,1,1,1,0>>, <<1,1,1,1,1,1,1,1,5,5>> }
 A(l, le, r, re, rtl, ea) == [l |-> l, le |-> le, r |-> r, re |-> re, rtl |-> rtl, ea |-> ea]
@@ -68,4 +70,13 @@ Args6 == { A(<<>>, "INF", <<>>, "INF", FALSE, FALSE), A(<<>>, "INF", <<>>, "INF"
            A(<<1>>, "EXC", <<1,1,1,1,1,1,1,1,5,5>>, "INC", FALSE, FALSE), A(<<1>>, "INC", <<1,1,1,1,1,1,1,1,0>>, "INC", TRUE, FALSE),
            A(<<>>, "INF", <<>>, "INF", TRUE, TRUE) }
 K4s == { <<1>>, <<2>>, <<3>>, <<4>> }
+A8 == <<1,1,1,1,1,1,1,1>>
+\* a next layer whose root border splits (4th key, F = 3) and whose interior root collapses again
+K5L == { A8 \o <<1>>, A8 \o <<2>>, A8 \o <<3>>, A8 \o <<4>>, <<9>> }
+ArgsL == { A(<<>>, "INF", <<>>, "INF", FALSE, FALSE), A(<<>>, "INF", <<>>, "INF", TRUE, FALSE), A(<<>>, "INF", <<>>, "INF", FALSE, TRUE), A(<<>>, "INF", <<>>, "INF", TRUE, TRUE),
+           A(A8 \o <<2>>, "INC", A8 \o <<4>>, "EXC", FALSE, FALSE), A(A8 \o <<1>>, "EXC", <<9>>, "INC", TRUE, FALSE) }
+\* single layer, interior root with several borders (splits and collapse under the cursor)
+K6s == { <<1>>, <<2>>, <<3>>, <<4>>, <<5>>, <<6>> }
+ArgsS == { A(<<>>, "INF", <<>>, "INF", FALSE, FALSE), A(<<>>, "INF", <<>>, "INF", TRUE, FALSE), A(<<>>, "INF", <<>>, "INF", FALSE, TRUE), A(<<>>, "INF", <<>>, "INF", TRUE, TRUE),
+           A(<<2>>, "INC", <<5>>, "INC", FALSE, FALSE), A(<<2>>, "EXC", <<5>>, "EXC", TRUE, FALSE) }
 ====
